@@ -34,8 +34,8 @@ const verif::Info verif_info = {
     "overload of its own); truncate/erase with every n followed by an append that lands the size on 256, 512, .. 4096 or one off; to_string(true|false, check_validity|substitute_invalid|assume_valid) "
     "(substitute_invalid on ill-formed content: each offending byte becomes U+FFFD, the reading of C02); a = move(b); b = move(a) chains with appends in between; a stream moved from and refilled 2..10 "
     "times while the receiving stream stays intact; assignment from a temporary holding 0, 5, C-1, C, C+1, 3C bytes; one chained << expression over seven overloads returning the stream itself; appends whose growth allocation fails (bad_alloc propagates, the state the stream then reports is adopted and must "
-    "stay valid: no foreign or double free, no write outside its storage in the rest of the history).",
-    false, "exploration"};
+    "stay valid: no foreign or double free, no write outside its storage in the rest of the history). Enumerated: big streams of 64 KiB .. 8 MiB (32 MiB thorough), see verif_enumerate.",
+    true, "exploration"};
 
 namespace {
 
@@ -510,7 +510,16 @@ std::string run(verif::Reader &r, Case &c, World &w, bool ext) {
 
 }  // namespace
 
+std::string big_stream_case(int k, int delta, int feed, int add, std::string &desc);
 int verif_case(const uint8_t *data, size_t size, Case &c) {
+    if (size >= 5 && data[0] == 0xFF) {      // one entry of the big-stream table (generated inputs stay at or below 4 MiB)
+        const int k = 16 + data[1] % (size == 5 ? 10 : 7);
+        std::string desc, why = big_stream_case(k, data[2] % 3 - 1, data[3] % 3, data[4] % 6, desc);
+        c.nontrivial = true; c.label("x:big-stream"); c.mix(0xB16); c.mix(k); c.mix(data[2] % 3); c.mix(data[3] % 3); c.mix(data[4] % 6);
+        if (c.want_text) c.text = desc;
+        if (!why.empty()) return c.fail(why);
+        return verif::CASE_OK;
+    }
     verif::Reader r(data, size, c);
     World w; w.want_log = c.want_text;
     std::string why = run(r, c, w, size > 0 && data[0] >= 80);
@@ -523,7 +532,73 @@ int verif_case(const uint8_t *data, size_t size, Case &c) {
     return verif::CASE_OK;
 }
 
-long verif_enumerate(int, int, int, verif::EnumReport &) { return 0; }
+// Big streams: capacities of 64 KiB .. 8 MiB (quick) / 32 MiB (thorough) reached in one append, in 64 KiB pieces or in 4 KiB pieces; then ONE
+// append / append_char / operator<< that lands just below, at, just above the capacity or several doublings beyond it (1 byte, +cap, 2*cap+3,
+// 3 MiB+7, 5 MiB); then truncate/erase, a further append and a move.  Compared byte for byte with a std::string model.
+// As a verif_case input: FF k delta feed add (so that a failing table entry is an ordinary replay file).
+std::string big_stream_case(int k, int delta, int feed, int add, std::string &desc) {
+    static std::string pat;
+    if (pat.empty()) { pat.assign(8u << 20, '\0'); for (size_t i = 0; i < pat.size(); i++) pat[i] = (char)('a' + (i * 7 + (i >> 9)) % 26); }
+    const size_t start = ((size_t)1 << k) + delta;
+    static const size_t fixed[] = {1, 0, 0, (3u << 20) + 7, 5u << 20, 300};
+    const size_t a = add == 1 ? ((size_t)1 << k) : add == 2 ? ((size_t)2 << k) + 3 : fixed[add];
+    desc = "C16 big stream: " + verif::unum(start) + " bytes appended " + (feed == 0 ? "at once" : feed == 1 ? "in 64 KiB pieces" : "in 4 KiB pieces") + ", then one append of " + verif::unum(a) +
+           " bytes (" + (add == 5 ? "append_char" : add % 3 == 0 ? "append" : add % 3 == 1 ? "<< string_view" : "<< ST::string") + "), truncate, erase, append, move";
+    va::reset();
+    std::string why, model;
+    {
+        va::LibScope l;
+        ST::string_stream ss;
+        auto same = [&](const char *when) {
+            if (!why.empty()) return;
+            if (ss.size() != model.size()) why = std::string(when) + ": size() is " + verif::unum(ss.size()) + ", the appended bytes are " + verif::unum(model.size());
+            else if (memcmp(ss.raw_buffer(), model.data(), model.size()) != 0) {
+                size_t i = 0; while (ss.raw_buffer()[i] == model[i]) i++;
+                why = std::string(when) + ": byte " + verif::unum(i) + " of " + verif::unum(model.size()) + " differs from what was appended";
+            }
+        };
+        auto put = [&](size_t off, size_t n, int how) {
+            while (n) { size_t m = n < pat.size() - off ? n : pat.size() - off; if (!m) { off = 0; continue; }
+                if (how == 0) ss.append(pat.data() + off, m); else if (how == 1) ss << std::string_view(pat.data() + off, m); else ss << ST::string::from_validated(pat.data() + off, m);
+                model.append(pat.data() + off, m); off = (off + m) % pat.size(); n -= m; }
+        };
+        if (feed == 0) put(3, start, 0);
+        else { const size_t piece = feed == 1 ? 65536 : 4096; size_t done = 0; while (done < start) { size_t m = start - done < piece ? start - done : piece; put(done % 1000, m, 0); done += m; } }
+        same("after growing the stream");
+        if (add == 5) { ss.append_char('#', a); model.append(a, '#'); } else put(11, a, add % 3);
+        same("after one further append");
+        const size_t keep = model.size() / 2 + 1; ss.truncate(keep); model.resize(keep); same("after truncate");
+        ss.erase(C + 1); model.resize(model.size() - (C + 1)); same("after erase");
+        put(5, 70000, 1); same("after appending to the truncated stream");
+        ST::string_stream moved(std::move(ss)); if (why.empty() && (moved.size() != model.size() || memcmp(moved.raw_buffer(), model.data(), model.size()) != 0)) why = "a stream move-constructed from the big stream does not hold its bytes";
+        if (why.empty() && ss.size() != 0) why = "the moved-from big stream is not empty";
+        ss << "again"; if (why.empty() && (ss.size() != 5 || memcmp(ss.raw_buffer(), "again", 5) != 0)) why = "the moved-from big stream does not take a new append";
+        std::string().swap(model);      // the model grew inside this scope: its block is released the same way
+    }
+    if (why.empty()) { if (const char *e = va::error()) { why = e; va::clear_error(); } else if (va::live_blocks() != 0) why = "leak: " + verif::unum(va::live_blocks()) + " heap block(s) left after the stream was destroyed"; }
+    va::reset();
+    return why;
+}
+
+long verif_enumerate(int shard, int nshards, int tier, verif::EnumReport &r) {
+    long idx = 0;
+    const int maxk = tier ? 25 : 23;
+    for (int k = 16; k <= maxk; k++)
+        for (int delta = -1; delta <= 1; delta++)
+            for (int feed = 0; feed < 3; feed++)
+                for (int add = 0; add < 6; add++, idx++) {
+                    if (idx % nshards != shard) continue;
+                    if (!tier && k > 20 && feed == 2) continue;
+                    uint8_t cur[5] = {0xFF, (uint8_t)(k - 16), (uint8_t)(delta + 1), (uint8_t)feed, (uint8_t)add};
+                    verif::set_current(cur, 5);
+                    std::string desc, why = big_stream_case(k, delta, feed, add, desc);
+                    r.evaluations++; r.nontrivial++;
+                    if (r.want_sample() && idx % 37 == 5) r.samples.push_back(desc);
+                    if (!why.empty()) { r.failure = why; r.failing_case = desc; r.failing_bytes.assign(cur, cur + 5); return r.evaluations; }
+                }
+    if (shard == 0) r.exhausted.push_back(std::string("big-stream table: sizes 2^k-1, 2^k, 2^k+1 for k = 16..") + (tier ? "25" : "23") + " x fed at once / in 64 KiB / in 4 KiB pieces x one further append of 1, 2^k, 2^(k+1)+3, 3 MiB+7, 5 MiB, 300 x append / << string_view / << ST::string / append_char");
+    return r.evaluations;
+}
 
 void verif_corpus(std::vector<std::vector<uint8_t>> &out) {
     out.push_back({0, 0, 0, 4, 0, 0, 1, 1, 0, 2, 0, 0, 4, 0, 0, 0, 3, 0});   // create, append to C, move-construct, append to the moved-from stream
